@@ -252,7 +252,7 @@ func runCheck(args []string) int {
 					sel = append(sel, o)
 				}
 			default:
-				if labelHasProp(o.Label, *prop) || (o.Label == "" && j.contract) {
+				if labelHasProp(o.Label, *prop) || (o.Label == "" && j.contract) || strings.Contains(o.Name, "does-not-attach") {
 					sel = append(sel, o)
 				}
 			}
